@@ -52,10 +52,14 @@ ASSUMPTIONS = ["relabellings are injective maps to positive integers (is_one_euc
 TIMEOUT_S = 60.0
 CHUNK = 10
 THEOREMS_FOR_OP = {
-    "c15.ord": "C15: *_decide_relabel / *_reorder, *_winner_relabel, *_regroup, pw_relabel, *_check_relabel",
-    "c15.app": "C15: ci/cei/vi/vei/wsc/de/part/part2 _decide_relabel / _reorder, *_check_relabel",
-    "c15.mat": "C15: c1p_decide_cols_perm / c1p_decide_rows_perm",
-    "c15.eucl": "C15: Euclidean_perm, eucl_check_relabel",
+    "c15.ord": "Properties/C15.v: sp_decide_relabel/_reorder, spw_decide_*, sc_decide_relabel/_perm, sc_algo_verdict_perm, "
+               "spt_decide_relabel/_profile_perm, trick_verdict_invariant, min_*_del_relabel/_reorder, "
+               "min_partition_relabel/_profile_perm, *_winner_relabel, winner_sets_relabel, *_regroup, "
+               "pairwise/copeland/borda_scores_relabel, table_entry_relabel, has_condorcet_relabel/_regroup, "
+               "*_check_axis_relabel, sc_witness_check_relabel, spt_check_relabel, cert_*_relabel, partition_check_relabel",
+    "c15.app": "Properties/C15.v: approval_deciders_relabel/_reorder/_alts_perm, de_decide_reorder, approval_checks_relabel",
+    "c15.mat": "Properties/C15.v: c1p_decide_rows_perm, c1p_decide_cols_perm",
+    "c15.eucl": "Properties/C15.v: Euclidean_perm, Euclidean_relabel_iff, eucl_check_relabel",
 }
 
 DT = ["soc", "soi", "toc", "toi"]
@@ -322,6 +326,11 @@ def _plan(c, r):
         return plan
     if op == "c15.ord":
         dt = pl[0]
+        for j, t in enumerate(pl[4], 1):
+            if t[3] == 0 and t[4] == 0 and list(t[0]) != list(pl[1]):
+                # the harness' relabelled twin must be Model/Relabel.v's map_profile of the base (ties "twin" to the model)
+                plan.append((j, "model-twin", "c15.map_profile", [[[a, b] for a, b in zip(pl[1], t[0])], pl[2]]))
+                break
         for j, ((alts, orders, mults, build, f), rv) in enumerate(zip(variants_ord(pl), r)):
             if not isinstance(rv, dict) or "harness" in rv:
                 continue
@@ -477,6 +486,14 @@ def _judge_ord(c, r, wit):
                                "%r of the base's" % (j, got, img))
     # witnesses
     for (j, key), ok_ in wit:
+        if key == "model-twin":
+            t = pl[4][j - 1]
+            inv = {i: k for k, i in enumerate(t[1])}
+            mine = [V[j][1][inv[i]] for i in range(len(pl[2]))]          # twin's orders back in the base's storage order
+            if ok_ != mine:
+                return {"kind": "broken-correspondence", "reason": "the harness' relabelled twin differs from "
+                        "Model/Relabel.v map_profile: %r vs %r" % (mine, ok_)}
+            continue
         if ok_ != 1:
             return _mm("witness validity (%s checker)" % key,
                        "%s: the witness returned on variant %d (0 = base) is rejected by the verified checker on that "
